@@ -1,0 +1,269 @@
+//go:build verif
+
+// Contracts for /verif (build tag "verif"): //@ comment blocks and pure ghost functions only.
+package wasi_snapshot_preview1
+
+import (
+	"context"
+	"time"
+
+	"github.com/tetratelabs/wazero/api"
+	experimentalsys "github.com/tetratelabs/wazero/experimental/sys"
+	internalsys "github.com/tetratelabs/wazero/internal/sys"
+	"github.com/tetratelabs/wazero/internal/wasm"
+)
+
+var (
+	_ context.Context
+	_ experimentalsys.Errno
+	_ time.Duration
+)
+
+// memBytes: size in bytes of the guest memory behind an api.Memory (ghost, fixed during a call).
+func memBytes(m api.Memory) uint64 { return verif_uf_u64("memBytes", m) }
+
+// wasiCall: what every WASI host function may rely on: it is called by the engine with the
+// guest's module instance, a system context, a memory of at most 4 GiB, and exactly as many stack
+// slots as its signature declares. The slot VALUES are arbitrary (the guest chooses them).
+func wasiCall(mod api.Module, params []uint64, n int) bool {
+	mi, ok := mod.(*wasm.ModuleInstance)
+	return ok && mi != nil && mi.Sys != nil && internalsys.VerifCtxInv(mi.Sys) && len(params) == n
+}
+
+// ---- the guest memory API as seen by host functions (mirrors the proved contracts of
+// wasm.MemoryInstance, property C14): success exactly when offset+length is within the size ----
+//@ prop C15
+//@ iface (mod api.Module) Memory() api.Memory
+//@   ensures r0 != nil && memBytes(r0) <= 1<<32
+//@   modifies nothing
+//@ iface (m api.Memory) Size() uint32
+//@   ensures r0 == uint32(memBytes(m))
+//@   modifies nothing
+//@ iface (m api.Memory) Read(offset, byteCount uint32) ([]byte, bool)
+//@   ensures r1 == (uint64(offset)+uint64(byteCount) <= memBytes(m))
+//@   ensures r1 ==> len(r0) == int(byteCount) && cap(r0) == int(byteCount)
+//@   ensures !r1 ==> r0 == nil
+//@   modifies nothing
+//@ iface (m api.Memory) ReadByte(offset uint32) (byte, bool)
+//@   ensures r1 == (uint64(offset)+1 <= memBytes(m))
+//@   modifies nothing
+//@ iface (m api.Memory) ReadUint16Le(offset uint32) (uint16, bool)
+//@   ensures r1 == (uint64(offset)+2 <= memBytes(m))
+//@   modifies nothing
+//@ iface (m api.Memory) ReadUint32Le(offset uint32) (uint32, bool)
+//@   ensures r1 == (uint64(offset)+4 <= memBytes(m))
+//@   modifies nothing
+//@ iface (m api.Memory) ReadUint64Le(offset uint32) (uint64, bool)
+//@   ensures r1 == (uint64(offset)+8 <= memBytes(m))
+//@   modifies nothing
+//@ iface (m api.Memory) WriteByte(offset uint32, v byte) bool
+//@   ensures r0 == (uint64(offset)+1 <= memBytes(m))
+//@   modifies nothing
+//@ iface (m api.Memory) WriteUint16Le(offset uint32, v uint16) bool
+//@   ensures r0 == (uint64(offset)+2 <= memBytes(m))
+//@   modifies nothing
+//@ iface (m api.Memory) WriteUint32Le(offset, v uint32) bool
+//@   ensures r0 == (uint64(offset)+4 <= memBytes(m))
+//@   modifies nothing
+//@ iface (m api.Memory) WriteUint64Le(offset uint32, v uint64) bool
+//@   ensures r0 == (uint64(offset)+8 <= memBytes(m))
+//@   modifies nothing
+//@ iface (m api.Memory) Write(offset uint32, v []byte) bool
+//@   ensures r0 == (uint64(offset)+uint64(len(v)) <= memBytes(m))
+//@   modifies nothing
+//@ iface (m api.Memory) WriteString(offset uint32, v string) bool
+//@   ensures r0 == (uint64(offset)+uint64(len(v)) <= memBytes(m))
+//@   modifies nothing
+
+// ---- every WASI function: no Go run-time panic for any argument values (safety sweep: each
+// obligation that discharges on the pinned tree is claimed individually, see /verif/baseline) ----
+
+//@ func argsGetFn(ctx context.Context, mod api.Module, params []uint64) experimentalsys.Errno
+//@   requires wasiCall(mod, params, 2)
+//@   sweep
+
+//@ func argsSizesGetFn(ctx context.Context, mod api.Module, params []uint64) experimentalsys.Errno
+//@   requires wasiCall(mod, params, 2)
+//@   sweep
+
+//@ func clockResGetFn(ctx context.Context, mod api.Module, params []uint64) experimentalsys.Errno
+//@   requires wasiCall(mod, params, 2)
+//@   sweep
+
+//@ func clockTimeGetFn(ctx context.Context, mod api.Module, params []uint64) experimentalsys.Errno
+//@   requires wasiCall(mod, params, 3)
+//@   sweep
+
+//@ func environGetFn(ctx context.Context, mod api.Module, params []uint64) experimentalsys.Errno
+//@   requires wasiCall(mod, params, 2)
+//@   sweep
+
+//@ func environSizesGetFn(ctx context.Context, mod api.Module, params []uint64) experimentalsys.Errno
+//@   requires wasiCall(mod, params, 2)
+//@   sweep
+
+//@ func fdAdviseFn(ctx context.Context, mod api.Module, params []uint64) experimentalsys.Errno
+//@   requires wasiCall(mod, params, 4)
+//@   sweep
+
+//@ func fdAllocateFn(ctx context.Context, mod api.Module, params []uint64) experimentalsys.Errno
+//@   requires wasiCall(mod, params, 3)
+//@   sweep
+
+//@ func fdCloseFn(ctx context.Context, mod api.Module, params []uint64) experimentalsys.Errno
+//@   requires wasiCall(mod, params, 1)
+//@   sweep
+
+//@ func fdDatasyncFn(ctx context.Context, mod api.Module, params []uint64) experimentalsys.Errno
+//@   requires wasiCall(mod, params, 1)
+//@   sweep
+
+//@ func fdFdstatGetFn(ctx context.Context, mod api.Module, params []uint64) experimentalsys.Errno
+//@   requires wasiCall(mod, params, 2)
+//@   sweep
+
+//@ func fdFdstatSetFlagsFn(ctx context.Context, mod api.Module, params []uint64) experimentalsys.Errno
+//@   requires wasiCall(mod, params, 2)
+//@   sweep
+
+//@ func fdFilestatGetFn(ctx context.Context, mod api.Module, params []uint64) experimentalsys.Errno
+//@   requires wasiCall(mod, params, 2)
+//@   sweep
+
+//@ func fdFilestatSetSizeFn(ctx context.Context, mod api.Module, params []uint64) experimentalsys.Errno
+//@   requires wasiCall(mod, params, 2)
+//@   sweep
+
+//@ func fdFilestatSetTimesFn(ctx context.Context, mod api.Module, params []uint64) experimentalsys.Errno
+//@   requires wasiCall(mod, params, 4)
+//@   sweep
+
+//@ func fdPreadFn(ctx context.Context, mod api.Module, params []uint64) experimentalsys.Errno
+//@   requires wasiCall(mod, params, 5)
+//@   sweep
+
+//@ func fdPrestatDirNameFn(ctx context.Context, mod api.Module, params []uint64) experimentalsys.Errno
+//@   requires wasiCall(mod, params, 3)
+//@   sweep
+
+//@ func fdPrestatGetFn(ctx context.Context, mod api.Module, params []uint64) experimentalsys.Errno
+//@   requires wasiCall(mod, params, 2)
+//@   sweep
+
+//@ func fdPwriteFn(ctx context.Context, mod api.Module, params []uint64) experimentalsys.Errno
+//@   requires wasiCall(mod, params, 5)
+//@   sweep
+
+//@ func fdReadFn(ctx context.Context, mod api.Module, params []uint64) experimentalsys.Errno
+//@   requires wasiCall(mod, params, 4)
+//@   sweep
+
+//@ func fdReaddirFn(ctx context.Context, mod api.Module, params []uint64) experimentalsys.Errno
+//@   requires wasiCall(mod, params, 5)
+//@   sweep
+
+//@ func fdRenumberFn(ctx context.Context, mod api.Module, params []uint64) experimentalsys.Errno
+//@   requires wasiCall(mod, params, 2)
+//@   sweep
+
+//@ func fdSeekFn(ctx context.Context, mod api.Module, params []uint64) experimentalsys.Errno
+//@   requires wasiCall(mod, params, 4)
+//@   sweep
+
+//@ func fdSyncFn(ctx context.Context, mod api.Module, params []uint64) experimentalsys.Errno
+//@   requires wasiCall(mod, params, 1)
+//@   sweep
+
+//@ func fdTellFn(ctx context.Context, mod api.Module, params []uint64) experimentalsys.Errno
+//@   requires wasiCall(mod, params, 2)
+//@   sweep
+
+//@ func fdWriteFn(ctx context.Context, mod api.Module, params []uint64) experimentalsys.Errno
+//@   requires wasiCall(mod, params, 4)
+//@   sweep
+
+//@ func pathCreateDirectoryFn(ctx context.Context, mod api.Module, params []uint64) experimentalsys.Errno
+//@   requires wasiCall(mod, params, 3)
+//@   sweep
+
+//@ func pathFilestatGetFn(ctx context.Context, mod api.Module, params []uint64) experimentalsys.Errno
+//@   requires wasiCall(mod, params, 5)
+//@   sweep
+
+//@ func pathFilestatSetTimesFn(ctx context.Context, mod api.Module, params []uint64) experimentalsys.Errno
+//@   requires wasiCall(mod, params, 7)
+//@   sweep
+
+//@ func pathLinkFn(ctx context.Context, mod api.Module, params []uint64) experimentalsys.Errno
+//@   requires wasiCall(mod, params, 7)
+//@   sweep
+
+//@ func pathOpenFn(ctx context.Context, mod api.Module, params []uint64) experimentalsys.Errno
+//@   requires wasiCall(mod, params, 9)
+//@   sweep
+
+//@ func pathReadlinkFn(ctx context.Context, mod api.Module, params []uint64) experimentalsys.Errno
+//@   requires wasiCall(mod, params, 6)
+//@   sweep
+
+//@ func pathRemoveDirectoryFn(ctx context.Context, mod api.Module, params []uint64) experimentalsys.Errno
+//@   requires wasiCall(mod, params, 3)
+//@   sweep
+
+//@ func pathRenameFn(ctx context.Context, mod api.Module, params []uint64) experimentalsys.Errno
+//@   requires wasiCall(mod, params, 6)
+//@   sweep
+
+//@ func pathSymlinkFn(ctx context.Context, mod api.Module, params []uint64) experimentalsys.Errno
+//@   requires wasiCall(mod, params, 5)
+//@   sweep
+
+//@ func pathUnlinkFileFn(ctx context.Context, mod api.Module, params []uint64) experimentalsys.Errno
+//@   requires wasiCall(mod, params, 3)
+//@   sweep
+
+//@ func pollOneoffFn(ctx context.Context, mod api.Module, params []uint64) experimentalsys.Errno
+//@   requires wasiCall(mod, params, 4)
+//@   sweep
+//@   loop 0 (nsubscriptions uint32, i uint32, nevents uint32, inBuf []byte, outBuf []byte, blockingStdinSubs []*event)
+//@     invariant nsubscriptions <= 89478485 && i <= nsubscriptions
+//@     invariant len(inBuf) == int(nsubscriptions)*48 && len(outBuf) == int(nsubscriptions)*32
+//@     invariant int(nevents) + len(blockingStdinSubs) == int(i)
+//@     invariant forall j int :: 0 <= j && j < len(blockingStdinSubs) ==> blockingStdinSubs[j] != nil
+//@   loop 1 (nsubscriptions uint32, nevents uint32, outBuf []byte, blockingStdinSubs []*event, rangeindex int)
+//@     invariant nsubscriptions <= 89478485 && len(outBuf) == int(nsubscriptions)*32
+//@     invariant int(nevents) + len(blockingStdinSubs) - (rangeindex+1) == int(nsubscriptions)
+//@     invariant forall j int :: 0 <= j && j < len(blockingStdinSubs) ==> blockingStdinSubs[j] != nil
+
+//@ func writeEvent(outBuf []byte, evt *event)
+//@   requires len(outBuf) >= 14
+//@   modifies elems(outBuf)
+
+//@ func processClockEvent(inBuf []byte) (time.Duration, experimentalsys.Errno)
+//@   requires len(inBuf) >= 32
+//@   modifies nothing
+
+//@ func randomGetFn(ctx context.Context, mod api.Module, params []uint64) experimentalsys.Errno
+//@   requires wasiCall(mod, params, 2)
+//@   sweep
+
+//@ func schedYieldFn(ctx context.Context, mod api.Module, params []uint64) experimentalsys.Errno
+//@   requires wasiCall(mod, params, 0)
+//@   sweep
+
+//@ func sockAcceptFn(ctx context.Context, mod api.Module, params []uint64) experimentalsys.Errno
+//@   requires wasiCall(mod, params, 3)
+//@   sweep
+
+//@ func sockRecvFn(ctx context.Context, mod api.Module, params []uint64) experimentalsys.Errno
+//@   requires wasiCall(mod, params, 6)
+//@   sweep
+
+//@ func sockSendFn(ctx context.Context, mod api.Module, params []uint64) experimentalsys.Errno
+//@   requires wasiCall(mod, params, 5)
+//@   sweep
+
+//@ func sockShutdownFn(ctx context.Context, mod api.Module, params []uint64) experimentalsys.Errno
+//@   requires wasiCall(mod, params, 2)
+//@   sweep
+
